@@ -741,9 +741,47 @@ def load_case(e):
     return e["op"], par, a, e.get("route", "direct")
 
 
+def parallel_print_assumptions(prop, names, nproc=8):
+    """local replacement of common.print_assumptions: the same question (Print Assumptions for every property theorem on the compiled
+    Props file) asked by several coqc processes at once (each Print Assumptions walks the whole Reals library: ~0.5 s per theorem)"""
+    import subprocess, shutil, re
+    base = os.path.join(C.BUILD, "pa", f"{os.getpid()}_C12"); shutil.rmtree(base, ignore_errors=True)
+    procs = []
+    for k in range(min(nproc, max(1, len(names)))):
+        part = names[k::nproc]
+        if not part:
+            continue
+        d = os.path.join(base, str(k)); os.makedirs(d, exist_ok=True)
+        fn = os.path.join(d, f"PA_{prop}.v")
+        with open(fn, "w") as f:
+            f.write(f"From TLV Require Import Props.{prop}.\n")
+            for n in part:
+                f.write(f'Goal True. idtac "@@BEGIN {n}". exact I. Qed.\nPrint Assumptions {n}.\n')
+            f.write('Goal True. idtac "@@END". exact I. Qed.\n')
+        procs.append(subprocess.Popen(["timeout", "600", "coqc", "-R", os.path.join(C.COQ, "theories"), "TLV", fn],
+                                      stdout=subprocess.PIPE, stderr=subprocess.PIPE, text=True, cwd=d))
+    res, outs = {}, []
+    for pr in procs:
+        out, err = pr.communicate()
+        outs.append(out + (err if pr.returncode != 0 else ""))
+        if pr.returncode != 0:
+            continue
+        chunks = re.split(r"@@BEGIN (\w+)\n", out)
+        for i in range(1, len(chunks), 2):
+            name, body = chunks[i], chunks[i + 1].split("@@END")[0]
+            if "Closed under the global context" in body:
+                res[name] = []
+            else:
+                axs = re.findall(r"^([A-Za-z_][\w.']*)\s*:", body, re.M)
+                res[name] = sorted(a for a in set(axs) if a not in ("Axioms", "Variables", "Hypotheses"))
+    shutil.rmtree(base, ignore_errors=True)
+    return res, "\n".join(outs)
+
+
 def run(chk):
     rng = random.Random(chk.seed)
     merge_known()
+    C.print_assumptions = parallel_print_assumptions
     chk.build_proofs()
     drop_header_pseudo_axiom(chk)
     C.reset_backends()
